@@ -10,7 +10,10 @@ pub mod c02;
 pub mod c04;
 pub mod c05;
 pub mod c06;
+pub mod c07;
 pub mod c08;
+pub mod c12;
+pub mod c13;
 pub mod dictops;
 pub mod common;
 
@@ -103,7 +106,10 @@ pub fn run(id: &str, opts: &Opts) -> Option<Report> {
         "C04" => c04::run(opts),
         "C05" => c05::run(opts),
         "C06" => c06::run(opts),
+        "C07" => c07::run(opts),
         "C08" => c08::run(opts),
+        "C12" => c12::run(opts),
+        "C13" => c13::run(opts),
         _ => return None,
     })
 }
@@ -115,7 +121,10 @@ pub fn replay(id: &str, path: &Path) -> Option<i32> {
         "C04" => c04::replay(path),
         "C05" => c05::replay(path),
         "C06" => c06::replay(path),
+        "C07" => c07::replay(path),
         "C08" => c08::replay(path),
+        "C12" => c12::replay(path),
+        "C13" => c13::replay(path),
         _ => None,
     }
 }
@@ -126,6 +135,11 @@ pub fn xbuild(id: &str, emit: bool, dir: &Path, seed: u64, n: u32) -> Result<(),
         ("C05", true) => c05::xbuild_emit(dir, seed, n),
         ("C05", false) => {
             let r = c05::xbuild_consume(dir)?;
+            std::fs::write(dir.join("result.json"), serde_json::to_vec_pretty(&r).unwrap()).map_err(|e| e.to_string())
+        }
+        ("C07", true) => c07::xbuild_emit(dir, seed, n),
+        ("C07", false) => {
+            let r = c07::xbuild_consume(dir)?;
             std::fs::write(dir.join("result.json"), serde_json::to_vec_pretty(&r).unwrap()).map_err(|e| e.to_string())
         }
         _ => Err(format!("no cross-build exchange for {id}")),
